@@ -56,7 +56,9 @@ func (n *RestPatternNode) String() string {
 	var buff strings.Builder
 
 	buff.WriteRune('*')
-	buff.WriteString(n.Identifier.String())
+	if n.Identifier != nil {
+		buff.WriteString(n.Identifier.String())
+	}
 
 	return buff.String()
 }
